@@ -122,7 +122,7 @@ def run(ctx: Ctx) -> None:
         n = 300 if ctx.quick else 40000
         for name, enum, meth, up, low in PARSERS:
             parse = getattr(enum, meth)
-            pool = [m.value for m in enum] + [m.name for m in enum]
+            pool = [m.value for m in enum] + [m.name for m in enum] + (list(VIS_ALIAS) if name == "Visibility" else [])
             for i in ctx.indices(f"nonmember_{name}", n):
                 r = ctx.rng(f"nonmember_{name}", i)
                 base = r.choice(pool)
@@ -138,6 +138,11 @@ def run(ctx: Ctx) -> None:
                     "random": "".join(r.choice("abcdefghijklmnopqrstuvwxyz_ -0123456789") for _ in range(r.randint(1, 16))),
                     "double": base + base,
                 }[kind]
+                if name == "Visibility" and i % 4 == 0:
+                    # strings of the alias shape that are not one of the four documented bins
+                    kind = "alias_shaped"
+                    nums = ["0", "10", "20", "40", "50", "60", "80", "90", "100", "120", "040", "00"]
+                    s = r.choice(["v", "v", "v", "V", ""]) + r.choice(nums) + r.choice(["-", "-", "-", "_", "~"]) + r.choice(nums)
                 if is_member_spelling(name, enum, s) or (name == "Visibility" and s in VIS_ALIAS):
                     continue
                 ctx.begin_case(f"nonmember_{name}", i, parser=name, input=s)
